@@ -288,6 +288,10 @@ func modeData(seed uint64, n int, out *sx.Out) {
 			typ = auparse.AUDIT_PROCTITLE
 			var args []string
 			for a := 1 + r.Intn(4); a > 0; a-- {
+				if len(args) > 0 && r.Chance(1, 5) {
+					args = append(args, "") // an empty argument: two NULs in a row
+					continue
+				}
 				args = append(args, strings.ReplaceAll(genValue(r), " ", "_"))
 			}
 			title := strings.Join(args, "\x00")
